@@ -245,14 +245,19 @@ _OPS = [("laplace", "V", "s"), ("laplace", "K", "s"), ("laplace", "Kp", "s"), ("
         ("sparse", "I", "s"), ("sparse", "I", "m"), ("sparse", "LB", "p")]
 
 
-def shards(tier):
-    out = []
+def shards(tier, seed=1):
+    from vlib.pbt import rot
+
     q = tier == "quick"
-    sel = [o for i, o in enumerate(_OPS) if (not q) or i in (0, 1, 3, 4, 6, 8, 10, 11, 12, 14)]
-    for fam, op, grp in sel:
-        out.append({"check": "equivariance", "fam": fam, "op": op, "grp": grp, "examples": 6 if q else 40, "budget_s": 170 if q else 1500})
-    for fam, op, grp in ([("laplace", "K", "s"), ("helmholtz", "W", "p"), ("maxwell", "M", "m"), ("sparse", "I", "m")] if q else _OPS):
-        out.append({"check": "orientation", "fam": fam, "op": op, "grp": grp, "examples": 4 if q else 25, "budget_s": 170 if q else 1500})
+    out = []
+    ops = rot(_OPS, seed, 3) if q else _OPS
+    if q and not any(o[2] == "m" for o in ops):
+        ops = ops[:2] + [("maxwell", "E" if seed % 2 else "M", "m")]
+    for fam, op, grp in ops:
+        out.append({"check": "equivariance", "fam": fam, "op": op, "grp": grp, "examples": 10 if q else 60, "budget_s": 300 if q else 2400})
+    oops = rot([o for o in _OPS if o[0] != "sparse" or o[2] == "m"], seed + 1, 2) if q else _OPS
+    for fam, op, grp in oops:
+        out.append({"check": "orientation", "fam": fam, "op": op, "grp": grp, "examples": 5 if q else 30, "budget_s": 300 if q else 2400})
     return out
 
 
@@ -316,4 +321,7 @@ def strategy(spec):
 
 
 def required_labels(tier):
-    return ["equivariance", "motion", "scale", "relabel", "orientation", "partial_reversal", "maxwell_E", "maxwell_M", "sparse_I", "laplace_W"]
+    base = ["equivariance", "motion", "relabel", "orientation"]
+    return base if tier == "quick" else base + ["scale", "partial_reversal", "maxwell_E", "maxwell_M", "sparse_I", "laplace_W"]
+
+
